@@ -259,6 +259,10 @@ Definition rets (tr : list act) : list gerr :=
 Definition recv (tr : list act) : list gerr :=
   flat_map (fun a => match a with AFirstReturn e => [e] | _ => [] end) tr.
 
+(* nothing gets in the way of the loop: no veto, no Write that reports an error *)
+Definition quiet_act (a : lact) : Prop :=
+  match a with LLog _ _ false => False | LWrite _ _ ew => ew = EN | _ => True end.
+
 Definition is_veto (a : lact) : bool := match a with LLog _ _ false => true | _ => false end.
 Definition is_return (a : act) : bool := match a with ALoop _ (LReturn _) => true | _ => false end.
 
